@@ -66,10 +66,10 @@ def place_demo(d, demo, pkgs):
 
 def main():
     args = [a for a in sys.argv[1:] if not a.startswith("--")]
-    rnd = 2 if "--round2" in sys.argv else 1
+    rnd = 3 if "--round3" in sys.argv else 2 if "--round2" in sys.argv else 1
     pid = args[0]
     ks = args[1:] or ["1", "2"]
-    out_dir = "/tmp/seed/%s.out%s" % (pid, "2" if rnd == 2 else "")
+    out_dir = "/tmp/seed/%s.out%s" % (pid, str(rnd) if rnd > 1 else "")
     for k in ks:
         patch = os.path.join(out_dir, "change%s.diff" % k)
         demo = None
@@ -130,7 +130,7 @@ def main():
             res["check_output"] = out[:900]
             res["detected"] = "VIOLATION" in out
             res["detected_with_input"] = any("VIOLATION" in l and "no-failing-input-found" not in l for l in out.split("\n"))
-            dst = "/verif/seeded/%s-%s" % (pid, int(k) + (2 if rnd == 2 else 0))
+            dst = "/verif/seeded/%s-%s" % (pid, int(k) + 2 * (rnd - 1))
             os.makedirs(dst, exist_ok=True)
             shutil.copy(patch, os.path.join(dst, "patch.diff"))
             if os.path.isdir(demo):
